@@ -25,6 +25,9 @@ type Summary struct {
 	HashMutants  int      `json:"hash_mutants"`
 	Sites        []string `json:"sites"`  // distinct mutated field paths (indices stripped) with their operations
 	Opaque       []string `json:"opaque"` // fields reflection could not set (none expected)
+	SDLFiles     int      `json:"sdl_files"`
+	SDLPairs     int      `json:"sdl_pairs"`
+	SDLAccepted  int      `json:"sdl_accepted"`
 	Lines        int      `json:"lines"`
 }
 
@@ -45,10 +48,11 @@ func Main(args []string) int {
 	nHash := fs.Int("hash", 0, "number of distinct abstract manifests used as hash bases")
 	perms := fs.Int("perms", 2, "JSON key permutations per hash base")
 	schemes := fs.Int("schemes", NSchemes, "concretisation schemes per pair")
+	sdlRoot := fs.String("sdlroot", "", "directory searched for SDL files whose real (groups, manifest) pairs are abstracted and recorded too")
 	if err := fs.Parse(args[1:]); err != nil {
 		return 2
 	}
-	if err := run(*in, *out, *sum, *seed, *nGate, *nHash, *perms, *schemes); err != nil {
+	if err := run(*in, *out, *sum, *seed, *nGate, *nHash, *perms, *schemes, *sdlRoot); err != nil {
 		fmt.Fprintln(os.Stderr, "mmatch:", err)
 		return 2
 	}
@@ -60,7 +64,7 @@ type rawPair struct {
 	M json.RawMessage `json:"m"`
 }
 
-func run(in, out, sumPath string, seed int64, nGate, nHash, perms, schemes int) error {
+func run(in, out, sumPath string, seed int64, nGate, nHash, perms, schemes int, sdlRoot string) error {
 	if in == "" || out == "" {
 		return fmt.Errorf("-in and -out are required")
 	}
@@ -123,6 +127,19 @@ func run(in, out, sumPath string, seed int64, nGate, nHash, perms, schemes int) 
 			s.ResRejected++
 		}
 		if err := w.Write(line); err != nil {
+			return err
+		}
+	}
+
+	// 1b. real pairs from the repository's own SDL files, abstracted
+	if sdlRoot != "" {
+		var err error
+		s.SDLFiles, s.SDLPairs, s.SDLAccepted, err = RunSDL(sdlRoot, func(l PairLine) error {
+			l.ID += 1000000
+			s.PairEvals++
+			return w.Write(l)
+		})
+		if err != nil {
 			return err
 		}
 	}
